@@ -174,7 +174,7 @@ let () =
            let inv = ct_inv_b dfun t && leaf100_b t and holds = ct_holds_b nn t in
            if not (inv && holds) then Printf.printf "CT 0 0 inv=%s holds=%s\n" (b01 inv) (b01 holds)
            else begin
-             match ct_query dfun kk (valid_b dfun (leaf_points t) kk) (ct_fuel t) t with
+             match ct_query false dfun kk (valid_b dfun (leaf_points t) kk) (ct_fuel t) t with
              | None -> Printf.printf "CT 0 0 inv=1 holds=1 query=out-of-fuel\n"
              | Some (rows, ok) ->
                (* audit=0: the hypothesis of ct_query_complete_partial is not met for this query (the bound was
